@@ -52,6 +52,17 @@ pub(super) enum WaitResult {
     Cancelled,
 }
 
+#[cfg(feature = "verif")]
+impl WaitResult {
+    pub(super) fn verif(self) -> crate::verif::Wait {
+        match self {
+            WaitResult::Completed => crate::verif::Wait::Completed,
+            WaitResult::Panicked => crate::verif::Wait::Panicked,
+            WaitResult::Cancelled => crate::verif::Wait::Cancelled,
+        }
+    }
+}
+
 #[derive(Debug)]
 pub(crate) enum BlockResult<'me> {
     /// The query is running on another thread.
@@ -157,6 +168,8 @@ impl Running<'_> {
         let result =
             DependencyGraph::block_on(dg, thread_id, database_key, other_id, query_mutex_guard);
 
+        #[cfg(feature = "verif")]
+        crate::verif::failpoint(crate::verif::Site::AfterBlockOn);
         match result {
             WaitResult::Panicked => {
                 // If the other thread panicked, then we consider this thread
@@ -437,6 +450,26 @@ impl Runtime {
             new_owner_id,
             guard,
         )
+    }
+
+    /// Structural invariants of the runtime at a quiescent point.
+    #[cfg(feature = "verif")]
+    pub(crate) fn verif_quiescent_check(&self, problems: &mut Vec<String>) {
+        if let Err(problem) = self.dependency_graph.lock().verif_is_quiescent() {
+            problems.push(problem);
+        }
+        for window in self.revisions.windows(2) {
+            if window[0] < window[1] {
+                problems.push(format!(
+                    "runtime revisions not declining: {:?}",
+                    self.revisions
+                ));
+                break;
+            }
+        }
+        if self.load_cancellation_flag() {
+            problems.push("cancellation flag still set at quiescence".to_string());
+        }
     }
 
     #[cfg(feature = "persistence")]
